@@ -17,6 +17,8 @@ RULE = ("Hypothesis histories (<= 10 operations) of addfilter/updatefilter/repla
         "requires; every filter's content renders to a script that parses to the same tree; str of a second reload equals "
         "str(fs2). Plus an exhaustive grid: every set of 1-4 filters, each plain / described / disabled / both, under every marker-prefix pair. Non-trivial = >= 2 filters or a disabled filter or a description; distinct by history.")
 
+# values: the mild alphabet plus the two characters that quoting has to escape (a value may end with either)
+VALUE_ALPHA = F.MILD + ["\\", '"', "\\"]
 NAME_ALPHA = ["a", "B", "1", " ", "é", "€", "#", ":", '"', "\\", "{", "}", ";", "/*", "😀", "-", ".", "(", "[", ",",
               "\\n", "\\r", "\\t", "n", "\\\\", "%", "\t"]
 PREFIXES = [None, ("# rule:", "# about:"), ("#N=", "#D="), ("# Filter: ", "# Description: "), ("#>", "#<"),
@@ -59,7 +61,7 @@ def history(draw):
     prefixes = draw(st.sampled_from(PREFIXES))
     pf = prefixes or ("# Filter: ", "# Description: ")
     pool = draw(st.lists(st.one_of(names(pf), names(pf), st.sampled_from(SPECIAL_NAMES)), min_size=3, max_size=5, unique=True))
-    defs = [draw(F.definition(F.MILD)) for _ in range(3)]
+    defs = [draw(F.definition(VALUE_ALPHA)) for _ in range(3)]
     ops = []
     for _ in range(draw(st.integers(1, 12))):
         k = draw(st.sampled_from(["add", "add", "add", "add", "update", "replace", "replace", "replace", "remove", "enable", "disable", "disable", "move"]))
